@@ -555,6 +555,19 @@ fn corpus(jobs: &mut Vec<Job>) {
     let t = table(vec![("id", ColType::Id, ints(&[0, 1, 2, 3])), ("c1", ColType::Int("small"), oints(&[None, None, None, Some(1)])), ("c2", ColType::Float("dyadic"), vec![Cell::Null, Cell::Null, Cell::f(2.5), Cell::f(3.5)])]);
     jobs.push(Job { prefix: "corpus:null-column-nullable-filter-count/".into(), t, reals: vec![one(4), fixed_real(vec![0, 3, 4], vec![true, false], false, 999, Mode::Mem), fixed_real(vec![0, 3, 4], vec![true, true], true, 999, Mode::Mem)],
         queries: vec![Query { kind: Kind::Sel, items: vec![Item::Expr(Ex::Col(1)), Item::Expr(Ex::Arith('-', Box::new(Ex::Col(1)), Box::new(Ex::Col(0))))], pred: Some(Ex::Cmp("<>", Box::new(Ex::Col(2)), Box::new(Ex::Lit(Cell::f(49.5))))), order: vec![], limit: None, offset: 0, feat: "w:f<>+arith-".into() }] });
+    // null-column-nullable-filter-count, minimal shapes (repaired d5b38db): c2 all NULL, WHERE over the nullable c1
+    let t = table(vec![("id", ColType::Id, ints(&[1, 2])), ("c1", ColType::Int("small"), oints(&[Some(5), None])), ("c2", ColType::Int("small"), oints(&[None, None]))]);
+    let wh = || Some(Ex::Cmp(">=", Box::new(Ex::Col(1)), Box::new(Ex::Lit(Cell::Int(0)))));
+    jobs.push(Job { prefix: "corpus:null-column-nullable-filter-count/".into(), t, reals: vec![one(2), fixed_real(vec![0, 2], vec![true], false, 999, Mode::Mem), fixed_real(vec![0, 1, 2], vec![true, true], false, 999, Mode::Cold)],
+        queries: vec![
+            Query { kind: Kind::Ord, items: vec![Item::Expr(Ex::Col(0))], pred: wh(), order: vec![(0, false), (2, false)], limit: None, offset: 0, feat: "w:i>=+kI^i^".into() },
+            Query { kind: Kind::Ord, items: vec![Item::Expr(Ex::Col(0))], pred: wh(), order: vec![(2, false)], limit: None, offset: 0, feat: "w:i>=+ki^".into() },
+            Query { kind: Kind::Sel, items: vec![Item::Expr(Ex::Col(0)), Item::Expr(Ex::Col(2))], pred: wh(), order: vec![], limit: None, offset: 0, feat: "w:i>=".into() },
+            Query { kind: Kind::Sel, items: vec![Item::Expr(Ex::Col(2))], pred: wh(), order: vec![], limit: Some(1), offset: 0, feat: "w:i>=+lim".into() }] });
+    // executor-pinned-buffer (C04/C11/C02, open): a grouping column that is also a MAX input, stored offset-coded
+    let t = table(vec![("id", ColType::Id, ints(&[0, 1, 2])), ("c1", ColType::Int("u8off"), ints(&[1000000000000, 1000000000007, 1000000000005]))]);
+    jobs.push(Job { prefix: "corpus:executor-pinned-buffer/".into(), t, reals: vec![one(3), fixed_real(vec![0, 3], vec![true], false, 999, Mode::Mem), fixed_real(vec![0, 1, 3], vec![true, false], false, 999, Mode::Mem)],
+        queries: vec![q_agg(Kind::Grp, vec![Item::Key(1), Item::Agg("max", 1)], "w-+i:ma")] });
     // sum-sentinel (C04/C06/C02, open): a partial SUM equal to i64::MAX is taken for NULL when merged
     let t = table(vec![("id", ColType::Id, ints(&[1, 2, 3])), ("c1", ColType::Int("edges"), ints(&[i64::MAX - 2, 1, 1]))]);
     jobs.push(Job { prefix: "corpus:sum-sentinel/".into(), t, reals: vec![one(3), fixed_real(vec![0, 2, 3], vec![true, false], false, 999, Mode::Mem), fixed_real(vec![0, 1, 3], vec![true, false], false, 999, Mode::Mem)], queries: vec![q_agg(Kind::Agg, vec![Item::Agg("sum", 1)], "w-+su")] });
